@@ -813,6 +813,82 @@ def rule_e13(F):
     return c04._g12(F, r, files, consequence="is taken for the built-in by a typing rule: an ill-typed script (`?` in a function that does not return an optional value) compiles")
 
 
+def rule_e14(F):
+    """`return`, `accept` / `reject` and `?` are typed against the return type of the ENCLOSING ITEM - and a constant has none: its
+    initializer is checked with `function_return_type: None`, which is what makes those expressions type errors there.  Sibling
+    table of the four item checkers (function, filtermap, test: Some; constant: None), read off the `Context` each of them builds -
+    also when the context comes from a shared helper (then the value the constant checker hands over must be None)."""
+    r = RuleResult("C07.E14", "item contexts: a constant initializer is checked without a function return type (return / accept / reject / ? are errors there); functions, filtermaps and tests have one", floor=4)
+    want = {"constant": "None", "function": "Some", "filter_map": "Some", "test": "Some"}
+    for name, expect in want.items():
+        ps = [p for p in F.paths() if p.startswith("typechecker::function::") and hir.last(p) == name and "{closure" not in p]
+        if not ps:
+            r.missing("typechecker::function TypeChecker::" + name)
+            continue
+        b = F.body(ps[0])
+        found = []
+
+        def classify(e):
+            e = hir.strip(e)
+            d = hir.result_desc(e)
+            if e.get("k") == "path" and isinstance(d, str) and d.endswith("None"):
+                return "None"
+            if e.get("k") == "call" and hir.last(hir.call_def(e) or "") == "Some":
+                return "Some"
+            return None
+        for st in hir.nodes(b.hir["value"], "struct"):
+            if hir.last(hir.res_def({"res": st["path"]}) or "") != "Context":
+                continue
+            fd = dict((f[0], f[1]) for f in st["fields"])
+            if "function_return_type" in fd:
+                found.append(classify(fd["function_return_type"]) or "?")
+        # a shared helper builds the context: which value does THIS checker make it use?
+        for c in list(hir.nodes(b.hir["value"], "mcall")) + list(hir.nodes(b.hir["value"], "call")):
+            d = hir.call_def(c) or ""
+            hb = F.body(d) if d.startswith("typechecker::") and F.has(d) and hir.last(d) not in ("expr", "block", "unify") else None
+            if hb is None or not hb.hir:
+                continue
+            pidx = hir.param_index(hb.hir)
+            args = ([c["recv"]] if c.get("k") == "mcall" else []) + list(c["args"])
+            for st in hir.nodes(hb.hir["value"], "struct"):
+                if hir.last(hir.res_def({"res": st["path"]}) or "") != "Context":
+                    continue
+                fd = dict((f[0], f[1]) for f in st["fields"])
+                if "function_return_type" not in fd:
+                    continue
+                v = classify(fd["function_return_type"])
+                if v is None:
+                    l = hir.res_local(hir.peel_refs(hir.strip(fd["function_return_type"])))
+                    if l in pidx and pidx[l] < len(args):
+                        v = classify(args[pidx[l]]) or "?"
+                found.append(v or "?")
+        if not found or any(x != expect for x in found):
+            # the context may be assembled by a shared helper from closures / a private enum: evaluate the checker (vf/sx) and look at
+            # the Context values that reach the body checkers
+            try:
+                from .. import sx
+                opq = {p_ for p_ in F.paths() if p_.startswith("typechecker::") and not p_.startswith("typechecker::function::")}
+                seen_ = []
+                for res, evs in sx.Exec(F, opaque=opq, max_paths=2000).paths(b.hir, {}):
+                    for e in evs:
+                        for a in (e[3] if e[0] == "mcall" else e[2]):
+                            for c in sx.find_ctors(a, "Context"):
+                                v = sx.field_of(c, "function_return_type")
+                                seen_.append("Some" if sx.is_ctor(v) and v[1] == "Some" else "None" if v == "None" else "?")
+                if seen_ and "?" not in seen_:
+                    found = sorted(set(seen_))
+            except Exception:
+                pass
+        r.inst("item checker %s" % name, {"item": name, "function_return_type": found, "expected": expect})
+        if not found or any(x != expect for x in found):
+            r.bad(b.path, "context of %s" % name, relfile(b.file), b.line,
+                  "the %s checker builds its Context with function_return_type %s (expected %s): %s" % (
+                      name, found or "not found", expect,
+                      "a constant initializer then accepts `return`, `accept` / `reject` and `?` as if it were a function body" if name == "constant" else
+                      "return / accept / reject / ? in this item are no longer checked against its return type"))
+    return r
+
+
 def rules(ctx):
     F = ctx["F"]
-    return [rule_e1(F), rule_e2(F), rule_e3(F), rule_e4(F), rule_e5(F), rule_e6(F), rule_e7(F), rule_e8(F), rule_e9(F), rule_e10(F), rule_e11(F), rule_e12(F), rule_e13(F)]
+    return [rule_e1(F), rule_e2(F), rule_e3(F), rule_e4(F), rule_e5(F), rule_e6(F), rule_e7(F), rule_e8(F), rule_e9(F), rule_e10(F), rule_e11(F), rule_e12(F), rule_e13(F), rule_e14(F)]
